@@ -23,7 +23,7 @@ def outcome(run, i):
 def run(ctx):
     rnd = ctx.rnd
     ctx.rule = ("exhaustive: all sequences of 1..4 operations from {read clean file, read file with duplicate key, read and abandon after 1 row, "
-                "read without close, read with end-check failing, validate(limit 0), read nothing, read through a Reader object created before the history started, rows() called again on a Reader abandoned after one row, write rows, write nothing, write without close} on two CIDs (IsUnique+DistinctCount; "
+                "read without close, read with end-check failing, validate(limit 0), read with limit 0 through the Reader class, read nothing, read through a Reader object created before the history started, rows() called again on a Reader abandoned after one row, write rows, write nothing, write without close} on two CIDs (IsUnique+DistinctCount; "
                 "plugin check) over data sets sharing key values; each run re-executed alone on a fresh CID; thorough adds random histories of length 5..10; "
                 "distinct = distinct history; non-trivial = history has at least 2 operations")
     fields = [
@@ -45,6 +45,8 @@ def run(ctx):
         "read-noclose": {"kind": "R", "api": "c", "mode": "continue", "limit": None, "rows": three, "close": False},
         "read-endfail": {"kind": "R", "api": "c", "mode": "raise", "limit": None, "rows": three, "close": True},
         "validate-0": {"kind": "R", "api": "v", "mode": "raise", "limit": 0, "stop": 0, "rows": clean},
+        # a Reader with validation limit 0 that is read to the end and closed (nothing is validated; the end checks see no rows)
+        "read-limit0": {"kind": "R", "api": "c", "mode": "yield", "limit": 0, "rows": clean, "close": True},
         "read-empty": {"kind": "R", "api": "c", "mode": "yield", "limit": None, "rows": [], "close": True},
         # a Reader object that exists before the history starts; its run begins when rows() is called
         "read-early": {"kind": "R", "api": "c", "mode": "yield", "limit": None, "rows": clean, "close": True, "early": True},
